@@ -79,7 +79,7 @@ func authProfile() chain.Profile {
 	p.HotKeys = map[string][]string{"a01": {"a11"}, "a02": {"a12"}, "a05": {"a11", "a01", "a07", "a12"}}
 	p.Weights = map[string]int{"Blocks": 14, "StoreNew": 10, "StoreUpdate": 16, "Complete": 24, "Cancel": 5, "CancelAny": 6, "Terminate": 6,
 		"Renew": 6, "Migrate": 3, "Claim": 4, "AddVstorage": 2, "RemoveVstorage": 2, "Permission": 8, "Reset": 1, "Ready": 2,
-		"StoreForeign": 8, "StoreOddBase": 6}
+		"StoreForeign": 8, "StoreOddBase": 6, "StoreSponsored": 6}
 	p.Adversarial = 35
 	p.MaxData = 3
 	p.Timeouts = []int64{20, 600, 3600}
@@ -174,7 +174,7 @@ func scarceProfile() chain.Profile {
 	p.Name = "scarce"
 	p.Nodes = []string{"a01", "a02", "a03", "a04"}
 	p.LateNodes = []string{"a05"}
-	p.Weights = map[string]int{"Blocks": 40, "StoreNew": 10, "StoreUpdate": 3, "Complete": 12, "Cancel": 1, "Terminate": 1,
+	p.Weights = map[string]int{"Blocks": 40, "StoreNew": 10, "StoreUpdate": 3, "Complete": 12, "Cancel": 4, "Terminate": 1,
 		"Renew": 2, "Claim": 3, "CreateLate": 2, "Reset": 3, "RemoveVstorage": 2, "AddVstorage": 2}
 	p.Sizes = []int64{1000, 10000}
 	p.Durs = []int64{3600, 7200}
